@@ -29,9 +29,23 @@ os.environ.setdefault('IXPEOBSSIM_VERIF', '1')
 os.environ.setdefault('MPLBACKEND', 'Agg')
 
 
+def out(line=''):
+    """Print on the real stdout (sys.stdout is redirected to /dev/null while the package under test runs)."""
+    sys.__stdout__.write(str(line) + '\n')
+    sys.__stdout__.flush()
+
+
 def quiet_ixpe():
-    """Silence the package logger (it prints a banner and INFO lines on stdout)."""
+    """Silence the package: logger, `hdu_list.info()` and numpy warnings go nowhere; our own lines use `out`."""
     import logging
+    import warnings
+    warnings.filterwarnings('ignore')
+    sys.stdout = open(os.devnull, 'w')
+    try:
+        import numpy
+        numpy.seterr(all='ignore')
+    except Exception:
+        pass
     try:
         from ixpeobssim.utils.logging_ import logger
         logger.setLevel(logging.CRITICAL)
@@ -315,12 +329,13 @@ class Check:
     def known_finding(self, entry, still_fails, observed=''):
         if still_fails:
             line = 'KNOWN-FINDING: property=%s %s' % (self.pid, entry['what'])
-            print(line)
+            out(line)
             self.known_printed.append(dict(id=entry['id'], observed=observed))
 
     # -- the Lean side
-    def lean(self, modules):
+    def lean(self, modules, gen_names=()):
         self.gen = regenerate()
+        self.gen_names = list(gen_names)
         self.proof = prove(modules)
         return self.proof
 
@@ -337,6 +352,11 @@ class Check:
                                            gen_status={k: v.get('tie') for k, v in (self.gen or {}).get('functions', {}).items() if v.get('tie') != 'translated'})))
         if self.gen is not None and self.gen.get('rc', 0) != 0:
             broken.append(dict(kind='proof', what='translator failed', replay=dict(log=self.gen.get('log'))))
+        for name in getattr(self, 'gen_names', []):
+            st = (self.gen or {}).get('functions', {}).get(name, {})
+            if st.get('tie') == 'abstract-call-changed':
+                broken.append(dict(kind='correspondence', what='tie degraded for %s: %s' % (name, st.get('reason')),
+                                   replay=dict(function=name, reason=st.get('reason'))))
         if broken and not impl and search is not None:
             search(10)
             impl = [v for v in self.violations if v['kind'] == 'impl']
@@ -345,18 +365,18 @@ class Check:
         if impl:
             v = impl[0]
             path = self._write_replay(v, broken)
-            print('VIOLATION property=%s replay=%s' % (self.pid, path))
-            print('  ' + v['what'][:400])
+            out('VIOLATION property=%s replay=%s' % (self.pid, path))
+            out('  ' + v['what'][:400])
             rc = 1
         elif broken:
             v = broken[0]
             path = self._write_replay(v, broken[1:])
-            print('  ' + v['what'][:400])
-            print('VIOLATION property=%s replay=%s no-failing-input-found' % (self.pid, path))
+            out('  ' + v['what'][:400])
+            out('VIOLATION property=%s replay=%s no-failing-input-found' % (self.pid, path))
             rc = 1
         self._write_evidence(level, checker_cmd, trusted, len(impl) + len(broken))
         dt = time.time() - self.t0
-        print('%s %s tier=%s seed=%d cases=%d nontrivial=%d obligations=%s wall=%.1fs' % (
+        out('%s %s tier=%s seed=%d cases=%d nontrivial=%d obligations=%s wall=%.1fs' % (
             'FAIL' if rc else 'OK', self.pid, self.tier, seed(), self.cases, len(self.nontrivial),
             ('%d/%d' % (sum(1 for o in self.proof['obligations'] if o['ok']), len(self.proof['obligations']))) if self.proof else '-', dt))
         return rc
